@@ -36,8 +36,10 @@ def initial_files() -> T.Tuple[L.Files, L.Files]:
         'tags': L.Spec('tags', 'array', 'a', choices=None),
         'y': L.Spec('y', 'string', 'ytop'),
         'yc': L.Spec('yc', 'combo', 'a', choices=['a', 'b', 'c']),
+        'ds': L.Spec('ds', 'string', 'ds0'),
     }
     sub = {
+        'dt': L.Spec('dt', 'string', 'dt0'),
         't': L.Spec('t', 'string', 't0'),
         'k': L.Spec('k', 'combo', 'p', choices=['p', 'q', 'r']),
         'j': L.Spec('j', 'integer', '3', min=0, max=50),
@@ -47,10 +49,19 @@ def initial_files() -> T.Tuple[L.Files, L.Files]:
     return top, sub
 
 
+def initial_dopts() -> T.Dict[str, T.Dict[str, str]]:
+    """default_options: of the two project() calls (never name an option that an edit adds later)."""
+    return {'': {'warning_level': '2', 'ds': 'dsdo'}, 'sub': {'werror': 'true', 'dt': 'dtdo'}}
+
+
+def _do(d: T.Mapping[str, str]) -> str:
+    return (', default_options: [' + ', '.join(f"'{k}={v}'" for k, v in d.items()) + ']') if d else ''
+
+
 def render_project(m: L.Model) -> T.Dict[str, str]:
     top, sub = m.files[''], m.files['sub']
     bi = list(L.BUILTINS)
-    t = ["project('p', meson_version: '>=1.1')"]
+    t = ["project('p', meson_version: '>=1.1'%s)" % _do(m.dopts[''])]
     for n in list(top) + bi:
         t.append(f"message('OPT {n}=@0@'.format(get_option('{n}')))")
     t.append("subproject('sub')")
@@ -59,7 +70,7 @@ def render_project(m: L.Model) -> T.Dict[str, str]:
     t.append("if import('fs').exists(meson.current_source_dir() / 'FAIL2')\n"
              "  custom_target('dup1', output: 'dup.out', command: ['true'])\n"
              "  custom_target('dup2', output: 'dup.out', command: ['true'])\nendif")
-    s = ["project('sub', meson_version: '>=1.1')"]
+    s = ["project('sub', meson_version: '>=1.1'%s)" % _do(m.dopts['sub'])]
     for n in list(sub) + bi:
         s.append(f"message('OPT sub:{n}=@0@'.format(get_option('{n}')))")
     return {
@@ -166,6 +177,16 @@ class Gen:
         kinds = ['add', 'change-default', 'shrink', 'extend', 'range', 'add-choices', 'remove-choices']
         if len(f) > 1:
             kinds.append('remove')
+        if m.dopts[sub] and r.random() < 0.12:
+            # the default_options: of project() are rewritten: no effect before the next --wipe
+            name = r.choice(sorted(m.dopts[sub]))
+            if name in L.BUILTINS:
+                b = L.BUILTINS[name]
+                val = self.value_for(L.Spec(name, b['kind'], b['default'], b.get('choices'), b.get('min'), b.get('max')))
+            else:
+                val = self.fresh('do')
+            m.dopts[sub][name] = val
+            return {'edit': 'default-options', 'sub': sub, 'name': name, 'value': val}
         if f and r.random() < 0.12:
             # hostile: the option file ends up declaring nothing at all
             # in the subproject really everything goes (zero declarations left); at top level the parents of the
@@ -174,6 +195,7 @@ class Gen:
             names = [n for n in f if n not in keep]
             for n in names:
                 del f[n]
+                m.dopts[sub].pop(n, None)
             return {'edit': 'remove-all', 'sub': sub, 'name': ','.join(names) or '-'}
         for _ in range(10):
             kind = r.choice(kinds)
@@ -191,6 +213,7 @@ class Gen:
             sp = f[name]
             if kind == 'remove':
                 del f[name]
+                m.dopts[sub].pop(name, None)    # a default_options: entry for an option that no longer exists is an error
                 return {'edit': 'remove', 'sub': sub, 'name': name}
             if kind == 'change-default':
                 if sp.kind == 'string':
@@ -322,7 +345,9 @@ def run_history(job: T.Tuple[int, int, str, T.Optional[T.List[dict]]]) -> dict:
     rng = random.Random(seed)
     gen = Gen(rng, nsteps)
     top, sub = initial_files()
-    m = L.Model(top, sub)
+    # two histories out of three have default_options: in both project() calls (own random stream: the histories of earlier
+    # versions of this check stay what they were)
+    m = L.Model(top, sub, initial_dopts() if random.Random(seed ^ 0xD0).random() < 0.67 else None)
     base = os.path.join(root, f'h{seed}')
     src, b = os.path.join(base, 'src'), os.path.join(base, 'b')
     res: T.Dict[str, T.Any] = {'seed': seed, 'steps': [], 'problems': [], 'paths': {}, 'checked_values': 0, 'checked_msgs': 0,
